@@ -170,6 +170,10 @@ def _replay_chunk(arg):
     lines, init_cls, init_val, nmax, empty = arg
     from lib.guard import HardTimeout, limits, time_limit
 
+    if isinstance(lines, str):
+        from lib.spill import load
+
+        lines = load(lines)
     limits()
     mism, eqbad, errs = [], [], []
     nontrivial = 0
@@ -315,18 +319,27 @@ def replay_emitted(ctx, pop, n, maxops, label):
     if len(recs) != res.generated - 1 and len(recs) != res.generated:
         raise MachineryError(f"emitted {len(recs)} transitions but TLC generated {res.generated} states")
     init_cls, init_val = POPS[pop]
-    chunks = [recs[i::32] for i in range(32)]
+    import gc
+
+    from lib.spill import spill
+
+    nrecs = len(recs)
+    samples = [recs[k] for k in range(0, nrecs, max(1, nrecs // 3))][:2]
+    paths = spill(ctx.work, f"c08_{pop}_{n}_{maxops}", [recs[i::64] for i in range(64)])
+    res.stdout = ""
+    res.printed = recs = None  # the workers read their share from disk; nothing large is inherited through fork
+    gc.collect()
     tot = nontriv = 0
     mism, eqbad, errs = [], [], []
     with ProcessPoolExecutor(max_workers=16) as ex:
-        for cnt, nt, m, e, er in ex.map(_replay_chunk, [(c, init_cls, init_val, n, pop in EMPTY_LIST_POPS) for c in chunks if c]):
+        for cnt, nt, m, e, er in ex.map(_replay_chunk, [(pth, init_cls, init_val, n, pop in EMPTY_LIST_POPS) for pth in paths]):
             tot += cnt
             nontriv += nt
             mism += m
             eqbad += e
             errs += er
     ctx.count(tot, traces=tot)
-    for r in recs[:: max(1, len(recs) // 3)][:2]:
+    for r in samples:
         ctx.sample({"kind": "replayed model history", "pop": pop, "history": r["h"], "model_post_state_hashes": r["s"]["hs"]})
     ctx.notes.setdefault("replay", []).append(
         {"pop": pop, "N": n, "max_ops": maxops, "transitions_replayed": tot, "hash_then_mutate_histories": nontriv,
